@@ -123,6 +123,24 @@ def run_case(case):
                 if m[2] is not None:
                     mp[None] = snode[m[2]]
                 sg.add_mapping(snode[cid], bs.dsg, SupExistenceMapping(mp))
+        if maps and case.get('_i', 0) % 3 == 0:
+            # a copy that is given one more (duplicate) mapping: the graph it was copied from keeps its own mappings
+            n_before = len(sg.choice_mappings)
+            sg_copy = sg.copy()
+            cid0, m0 = maps[0]
+            try:
+                if m0[0] == 'opt':
+                    sg_copy.add_mapping(snode[cid0], bs.dsg, SupSelChoiceOptionMapping(bs.node[m0[1]], {(None if k is None else bs.node[k]): snode[v] for k, v in m0[3]}))
+                else:
+                    mp0 = {bs.node[k]: snode[v] for k, v in m0[1]}
+                    if m0[2] is not None:
+                        mp0[None] = snode[m0[2]]
+                    sg_copy.add_mapping(snode[cid0], bs.dsg, SupExistenceMapping(mp0))
+            except Exception:
+                pass
+            tags.append('copy-with-extra-mapping')
+            if len(sg.choice_mappings) != n_before:
+                return {'fail': {'clause': 'mapping-added-to-a-copy-reaches-the-original', 'detail': 'the original had %d mappings, after add_mapping on its copy %d' % (n_before, len(sg.choice_mappings))}, 'tags': tags}
         sgi = sg.set_start_nodes({snode[s] for s in sup['start']})
     except RuntimeError as e:
         init_error = e
